@@ -1,6 +1,9 @@
 """Developer helper: run STANDINS of a contracts module and print failures."""
 import sys, importlib, time, json
 sys.path.insert(0, '/verif')
+import os
+_R = os.environ.get('VERIF_REPO', '/repo')
+sys.path[:0] = [f'{_R}/{p}' for p in ('cirq-core', 'cirq-google', 'cirq-ionq', 'cirq-aqt', 'cirq-pasqal')]  # the working tree, not the installed release
 mod = importlib.import_module('contracts.' + sys.argv[1])
 tier = sys.argv[2] if len(sys.argv) > 2 else 'quick'
 only = sys.argv[3:] 
